@@ -155,6 +155,11 @@ def Event.isLog : Event → Bool
   | .log _ _ => true
   | _ => false
 
+/-- the whole-dictionary read of an `AllOptions` node -/
+def Event.isReadAll : Event → Bool
+  | .readAll => true
+  | _ => false
+
 structure St where
   /-- cache id ↦ (fingerprint ↦ value) -/
   caches : List (Nat × List (V × V)) := []
